@@ -131,7 +131,7 @@ template <class T, glm::qualifier Q> static void reg_gtxquat() {
 	// decompose(T * R(q) * S): orientation (w,x,y,z), scale, translation. The branch of the quaternion extraction is chosen by the trace
 	// and the largest diagonal entry of R: cases within 1/32 of a branch boundary are counted, not compared (either branch is right, with
 	// different rounding)
-	add_op(name("decompose"), spec("@U4 @P3 @F3", tl), spec("@4 @3 @3", tl), 'U', 'U', 256,
+	add_op(name("decompose"), spec("@U4 @P3 @F3", tl), spec("@4 @3 @3", tl), 'U', 'R', 256,  // lowp: normalize() inside uses the rsqrt approximation
 	       FN { glm::qua<T, Q> q = LDQ<T, Q>(in); glm::vec<3, T, Q> sc = VL<3, T, Q>::ld(in + 4), tr = VL<3, T, Q>::ld(in + 7);
 		       glm::mat<4, 4, T, Q> M = glm::translate(glm::mat<4, 4, T, Q>(T(1)), tr) * glm::mat4_cast(q) * glm::scale(glm::mat<4, 4, T, Q>(T(1)), sc);
 		       glm::vec<3, T, Q> s2, t2, skew; glm::vec<4, T, Q> persp; glm::qua<T, Q> o;
